@@ -103,6 +103,21 @@ def _container_kind(tree: ast.Module, fn: ast.AST, target: ast.expr):
                 return "module"
         return "self"
     if isinstance(target, ast.Attribute) and isinstance(target.value, ast.Name) and target.value.id not in ("self",):
+        # ClassName.container[...] / cls.container[...]: a container that lives on the class is shared by every object
+        c_ = getattr(fn, "_parent", None)
+        while c_ is not None and not isinstance(c_, ast.ClassDef):
+            c_ = getattr(c_, "_parent", None)
+        root_ = c_
+        while root_ is not None and getattr(root_, "_parent", None) is not None:
+            root_ = root_._parent
+        owners = [k_ for k_ in (ast.walk(root_) if root_ is not None else []) if isinstance(k_, ast.ClassDef) and
+                  (k_.name == target.value.id or (target.value.id == "cls" and k_ is c_))]
+        for k_ in owners:
+            if any(isinstance(n, ast.Assign) and len(n.targets) == 1 and isinstance(n.targets[0], ast.Name) and n.targets[0].id == target.attr and
+                   (isinstance(n.value, (ast.Dict, ast.List, ast.Set)) or
+                    (isinstance(n.value, ast.Call) and isinstance(n.value.func, ast.Name) and n.value.func.id in ("dict", "list", "set", "defaultdict", "OrderedDict")))
+                   for n in k_.body):
+                return "module"
         return None
     return None
 
